@@ -64,6 +64,31 @@ func c05Populate(what string, items []string, prefix string) ociregistry.Interfa
 	return m
 }
 
+// errAfterLister lists what the wrapped registry lists and then delivers an error
+// (a member that fails part-way through its listing).
+type errAfterLister struct{ ociregistry.Interface }
+
+var errC05Listing = fmt.Errorf("listing broke off: %w", ociregistry.ErrDenied)
+
+func errAfter(it ociregistry.Seq[string]) ociregistry.Seq[string] {
+	return func(yield func(string, error) bool) {
+		ok := true
+		it(func(s string, err error) bool {
+			ok = yield(s, err)
+			return ok
+		})
+		if ok {
+			yield("", errC05Listing)
+		}
+	}
+}
+func (l errAfterLister) Repositories(ctx context.Context, start string) ociregistry.Seq[string] {
+	return errAfter(l.Interface.Repositories(ctx, start))
+}
+func (l errAfterLister) Tags(ctx context.Context, repo, start string) ociregistry.Seq[string] {
+	return errAfter(l.Interface.Tags(ctx, repo, start))
+}
+
 type c05Spec struct {
 	what     string
 	stack    []string
@@ -105,10 +130,13 @@ func (s c05Spec) build() (ociregistry.Interface, func()) {
 		}
 	}
 	var reg ociregistry.Interface
-	hasUnify := false
+	hasUnify, unifyErr := false, false
 	for _, layer := range s.stack {
-		if layer == "unify" {
+		if layer == "unify" || layer == "unifyerr" {
 			hasUnify = true
+		}
+		if layer == "unifyerr" {
+			unifyErr = true
 		}
 	}
 	if hasUnify {
@@ -123,13 +151,17 @@ func (s c05Spec) build() (ociregistry.Interface, func()) {
 				a, b = append(a, it), append(b, it)
 			}
 		}
-		reg = ociunify.New(c05Populate(s.what, a, prefix), c05Populate(s.what, b, prefix), nil)
+		var second ociregistry.Interface = c05Populate(s.what, b, prefix)
+		if unifyErr {
+			second = errAfterLister{second} // this member's listing ends in an error after its items
+		}
+		reg = ociunify.New(c05Populate(s.what, a, prefix), second, nil)
 	} else {
 		reg = c05Populate(s.what, s.items, prefix)
 	}
 	for _, layer := range s.stack {
 		switch layer {
-		case "mem", "unify":
+		case "mem", "unify", "unifyerr":
 		case "debug":
 			reg = ocidebug.New(reg, func(string, ...any) {})
 		case "select":
@@ -240,6 +272,12 @@ func (s c05Spec) expected() string {
 	}
 	end := "done"
 	calls := len(vis)
+	for _, l := range s.stack {
+		if l == "unifyerr" {
+			end = "error" // the listing is complete up to the error, which is delivered last
+			calls = len(vis) + 1
+		}
+	}
 	if s.k >= 0 && len(vis) >= s.k {
 		vis = vis[:s.k]
 		end = "stopped"
@@ -255,7 +293,8 @@ func (s c05Spec) expected() string {
 func (*c05) Gen(rng *RNG, tier string) []Case {
 	var cases []Case
 	stacks := []string{"mem", "wire", "wire+wire", "debug", "select", "sub", "unify", "wire+debug", "debug+wire", "select+wire", "wire+select",
-		"sub+wire", "wire+sub", "unify+wire", "sub+select", "select+sub", "unify+select+wire", "sub+wire+wire", "unify+sub"}
+		"sub+wire", "wire+sub", "unify+wire", "sub+select", "select+sub", "unify+select+wire", "sub+wire+wire", "unify+sub",
+		"unifyerr", "unifyerr+debug", "unifyerr+select"}
 	n := 700
 	if tier == "thorough" {
 		n = 12000
